@@ -22,7 +22,9 @@ ANGLE_CLASSES = [
     ("pi-1e-3", lambda r: PI - 1e-3),
     ("pi-1e-6", lambda r: PI - 1e-6),
     ("pi-1e-7", lambda r: PI - 1e-7),
+    ("pi-1e-8", lambda r: PI - 1e-8),
     ("pi-1e-9", lambda r: PI - 1e-9),
+    ("near_pi", lambda r: PI - 10 ** r.uniform(-9.5, -5)),
     ("pi", lambda r: PI),
     ("pi+1e-6", lambda r: PI + 1e-6),
     ("over_pi", lambda r: float(r.uniform(PI + 1e-3, 2 * PI - 1e-3))),
@@ -33,7 +35,7 @@ ANGLE_NAMES = [a for a, _ in ANGLE_CLASSES]
 ANGLE_SAFE = ["zero", "1e-9", "1e-7", "0.9e-6", "cut-", "cut", "cut+", "1.1e-6", "band", "1e-5", "1e-3",
               "generic", "generic2", "pi-1e-3"]      # angle <= pi - 1e-3
 
-AXIS_CLASSES = ["+e1", "-e1", "+e2", "-e2", "+e3", "-e3", "plane_xy", "plane_yz", "plane_xz", "generic", "generic"]
+AXIS_CLASSES = ["+e1", "-e1", "+e2", "-e2", "+e3", "-e3", "plane_xy", "plane_yz", "plane_xz", "generic", "generic", "small_component"]
 
 
 def axis(rng, cls):
@@ -47,6 +49,8 @@ def axis(rng, cls):
         return {"plane_xy": np.array([c, s, 0.0]), "plane_yz": np.array([0.0, c, s]),
                 "plane_xz": np.array([c, 0.0, s])}[cls]
     v = rng.normal(size=3)
+    if cls == "small_component":        # almost in a coordinate plane: where pivoting on "not near zero" picks a badly scaled column
+        v[int(rng.integers(3))] = rng.choice([-1.0, 1.0]) * 10 ** rng.uniform(-4.5, -2)
     return v / np.linalg.norm(v)
 
 
